@@ -73,15 +73,24 @@ def shape(kind, a, b, fin_exit="none"):
     raise KeyError(kind)
 
 
-def program(site, kind, ctx="operand", exit_a="none", exit_b="none", fin_exit="none", via_caller=False):
+def program(site, kind, ctx="operand", exit_a="none", exit_b="none", fin_exit="none", via_caller=False,
+            main_loop="for"):
     a = A(ctx, exit_a)
     if via_caller:
         a = a.replace("t(i)", "w(i)")
     body = shape(kind, a, B(exit_b), fin_exit)
     w = "function w(x) { var y = t(x); log('w', y); return y; } " if via_caller else ""
+    if main_loop == "forof":
+        head = "var it = []; for (i = 0; i < N; i++) { it.push(i); } for (i of it) {"
+    elif main_loop == "forin":
+        head = "var it = {}; for (i = 0; i < N; i++) { it['k' + i] = i; } for (var ik in it) { i = it[ik];"
+    else:
+        head = "for (i = 0; i < N; i++) {"
+    # a late throw after the loop, caught outside main(): any handler left installed by an exit path inside
+    # the loop would intercept it
     return (PRELUDE + SITES[site] + " " + w +
-            "function main() { for (i = 0; i < N; i++) { probe(); log('i', i); %s log('b', i); } return 'end'; } "
-            "R = main(); log('R', R); R;") % body
+            "function main() { %s probe(); log('i', i); %s log('b', i); } if (C1 === -1) { throw 'late'; } return 'end'; } "
+            "try { R = main(); } catch (late) { log('late', d(late)); } log('R', R); R;") % (head, body)
 
 
 def programs():
@@ -91,6 +100,8 @@ def programs():
         out.append(("site.%s.nested-rethrow" % s, program(s, "nested", exit_b="throw")))
         out.append(("site.%s.uncaught" % s, program(s, "none")))
         out.append(("site.%s.caller" % s, program(s, "tc", via_caller=True)))
+        out.append(("site.%s.tcf-forof" % s, program(s, "tcf", ctx="arg", main_loop="forof")))
+        out.append(("site.%s.tc-forin" % s, program(s, "tc", ctx="elem", main_loop="forin")))
     for kind in ("tc", "tf", "tcf", "nested"):
         for ctx in ("plain", "arg"):
             for ea in ("none", "break", "continue", "return"):
@@ -98,6 +109,9 @@ def programs():
                     if kind == "tf" and eb != "none":
                         continue
                     out.append(("shape.%s.%s.%s.%s" % (kind, ctx, ea, eb), program("stmt-prim", kind, ctx, ea, eb)))
+                    if ctx == "arg" and (ea != "none" or eb != "none"):
+                        out.append(("shape-forof.%s.%s.%s" % (kind, ea, eb),
+                                    program("stmt-prim", kind, ctx, ea, eb, main_loop="forof")))
         for fe in ("break", "continue", "return", "throw"):
             if kind == "tc":
                 continue
